@@ -27,6 +27,7 @@ type SpecEnv struct {
 	fr          *Frame
 	callerFrame *Frame
 	inOld       bool
+	localsCurrent bool
 	errs        []string
 }
 
@@ -125,7 +126,7 @@ func (x *Exec) evalSpecLazy(env *SpecEnv, e ast.Expr) specVal {
 			if t.High != nil {
 				hi = x.evalSpec(env, t.High).term
 			}
-			return specVal{term: fmt.Sprintf("(substr %s %s %s)", v.term, lo, hi), typ: v.typ}
+			return specVal{term: fmt.Sprintf("(str_sub %s %s %s)", v.term, lo, hi), typ: v.typ}
 		}
 	case *ast.CallExpr:
 		return x.evalCall(env, t)
@@ -188,7 +189,7 @@ func (x *Exec) evalIdent(env *SpecEnv, id *ast.Ident) specVal {
 // localByName resolves a source variable of the frame's function by name.
 func (x *Exec) localByName(env *SpecEnv, fr *Frame, name string) (specVal, bool) {
 	st := env.st
-	if env.inOld && env.old != nil {
+	if env.inOld && env.old != nil && !env.localsCurrent {
 		st = env.old
 		// parameters: their entry values
 		for i, p := range fr.fn.Params {
@@ -452,7 +453,7 @@ func (x *Exec) evalBinary(env *SpecEnv, b *ast.BinaryExpr) specVal {
 	if srt == "Str" {
 		switch b.Op {
 		case token.ADD:
-			return specVal{term: fmt.Sprintf("(concat %s %s)", l.term, r.term), typ: l.typ}
+			return specVal{term: fmt.Sprintf("(str_cat %s %s)", l.term, r.term), typ: l.typ}
 		case token.LSS:
 			return specVal{term: fmt.Sprintf("(str_lt %s %s)", l.term, r.term), typ: tBool}
 		case token.GTR:
@@ -518,6 +519,17 @@ func (x *Exec) evalCall(env *SpecEnv, c *ast.CallExpr) specVal {
 				sub.st = env.old
 			}
 			return x.evalSpec(&sub, c.Args[0])
+		case "pre":
+			// pre(e): e with the heap as it was at function entry but the CURRENT values of local
+			// variables (old(e) evaluates locals at entry as well)
+			sub := *env
+			sub.inOld = true
+			sub.localsCurrent = true
+			return x.evalSpec(&sub, c.Args[0])
+		case "G_pow2":
+			x.needPow2()
+			k := x.evalSpec(env, c.Args[0])
+			return specVal{term: fmt.Sprintf("(pow2 %s)", k.term), typ: tInt}
 		case "G_impl":
 			return specVal{term: implies(x.evalBool(env, c.Args[0]), x.evalBool(env, c.Args[1])), typ: tBool}
 		case "G_iff":
@@ -616,6 +628,33 @@ func (x *Exec) evalCall(env *SpecEnv, c *ast.CallExpr) specVal {
 				return x.applyUFun(env, u, c.Args)
 			}
 			return env.fail("unknown ghost function %s", id.Name)
+		}
+	}
+	// call of a closure value bound by a let (e.g. the comparator returned by a function)
+	if id, ok := c.Fun.(*ast.Ident); ok {
+		if v, bound := env.names[id.Name]; bound && x.vc.sortOf(v.typ) == "Fn" {
+			ci, known := x.closures[v.term]
+			if !known {
+				return env.fail("call of unknown function value %s", id.Name)
+			}
+			var terms []string
+			for i, a := range c.Args {
+				av := x.evalSpec(env, a)
+				if i < len(ci.fn.Params) && av.typ == untypedNil {
+					av = specVal{term: x.vc.zero(ci.fn.Params[i].Type()), typ: ci.fn.Params[i].Type()}
+				}
+				terms = append(terms, av.term)
+			}
+			fr := &Frame{fn: x.top, vals: map[ssa.Value]string{}, laddr: map[ssa.Value]*LAddr{}, tuples: map[ssa.Value][]string{}, depth: 0}
+			if env.fr != nil {
+				fr = env.fr
+			}
+			res := x.inlineCall(fr, env.st, ci.fn, terms, ci.bindings)
+			rts := x.resultTypes(ci.fn.Signature)
+			if len(rts) == 0 {
+				return specVal{term: "true", typ: tBool}
+			}
+			return specVal{term: res[0], typ: rts[0]}
 		}
 	}
 	// conversion?
